@@ -51,6 +51,7 @@ type FuncVer struct {
 	maxPaths   int
 	incomplete []string
 	nopanic    bool
+	nopanicKinds map[string]bool
 	frameSeq   int
 	loopInfos  map[*ssa.Function]*loopAnalysis
 	loopEntry  *State
@@ -766,7 +767,7 @@ func (fv *FuncVer) binop(st *State, x *ssa.BinOp) *Term {
 	}
 	if (x.Op == token.QUO || x.Op == token.REM) && isIntType(t) {
 		nz := Not(Eq(b, c.IntOf(big.NewInt(0), t)))
-		if fv.nopanic {
+		if fv.nopanic || fv.nopanicKinds["divzero"] {
 			fv.oblige(st, "divzero", fv.anchorAt(x.Pos(), "div"), x.Pos(), nz, "divisor is not zero")
 		}
 		st.assume(nz)
@@ -891,7 +892,7 @@ func (fv *FuncVer) indexAddr(st *State, x *ssa.IndexAddr) {
 }
 
 func (fv *FuncVer) boundsCheck(st *State, ok *Term, pos token.Pos, what string) {
-	if fv.nopanic {
+	if fv.nopanic || fv.nopanicKinds["bounds"] {
 		fv.oblige(st, "bounds", fv.anchorAt(pos, what), pos, ok, "index in range")
 	}
 	st.assume(ok)
